@@ -333,6 +333,7 @@ def run(ctx):
 
     ctx.borrow("C16", {"C16.R8": "C10.R10"}, "validate runs the logical preparer before the per-type validator, for every candidate branch of a union: a preparer that raises for a value it does not convert turns a plain 'does not match this branch' into an exception")
     ctx.borrow("C02", {"C02.R5": "C10.R9"}, "what validate accepts is what the writer must encode: the record validator judges `datum.get(name, default)`; a writer that substitutes the default on any other condition than an absent key encodes a value validate never saw")
+    ctx.borrow("C09", {"C09.R5": "C10.R12"}, "a record whose '-type' hint names another type does not conform: the record validator compares the hint with the full name, unconditionally (an option that is absent on some construction path switches the comparison off, and writers with validation enabled accept what validate rejects)")
     ctx.borrow("C09", {"C09.R2": "C10.R7"}, "validate must reject a (name, value) hint naming no branch exactly as the writer does")
 
 
